@@ -21,7 +21,19 @@ func init() {
 // outcome (accepted / refused) and the observable state agree. Returns the emitter, the model and
 // the first disagreement.
 func runHistory(v asmVariant, capacity int, ops []asmOp) (*asm.Emitter, *asmModel, string) {
-	e := newRealEmitter(v, capacity)
+	return runHistoryShape(v, capacity, ops, false)
+}
+
+// runHistoryShape: window=true hands the emitter a sub-slice of a larger array (len < cap) with
+// canaries around it; the emitter's capacity is the length of what it was given.
+func runHistoryShape(v asmVariant, capacity int, ops []asmOp, window bool) (*asm.Emitter, *asmModel, string) {
+	var e *asm.Emitter
+	var g *asmGuard
+	if window && capacity >= 0 {
+		e, g = newRealEmitterWindow(v, capacity)
+	} else {
+		e = newRealEmitter(v, capacity)
+	}
 	m := newModelFor(v, capacity)
 	for i, op := range ops {
 		before := observe(e, asmLabelNames)
@@ -36,6 +48,9 @@ func runHistory(v asmVariant, capacity int, ops []asmOp) (*asm.Emitter, *asmMode
 		}
 		if d := after.matchesModel(m); d != "" {
 			return e, m, fmt.Sprintf("after call #%d %s: %s", i, op.name, d)
+		}
+		if d := g.intact(); d != "" {
+			return e, m, fmt.Sprintf("call #%d %s wrote outside the target buffer: %s", i, op.name, d)
 		}
 	}
 	return e, m, ""
